@@ -1019,4 +1019,11 @@ theorem C35_mutual_exclusion (cap : Nat) (calls : Nat → Op)
   rw [invOf_mode] at this
   cases this
 
+/-- non-vacuity of the hypotheses of C35_linearizable: a Put can run alone to completion -/
+example : ∃ c, Monitor.Steps (fun i => invOf ((fun _ => Op.put 1 5) i)) (Monitor.Cfg.init (new 2))
+    [.acq 0, .step 0, .rel 0] c ∧ (∀ j, c.fl j = none) := by
+  obtain ⟨c, h1, h2, _⟩ := Monitor.solo_one (fun i => invOf ((fun _ => Op.put 1 5) i)) 0 _ rfl
+    (by rw [invOf_mode]; simp) (new 2)
+  exact ⟨c, h1, h2⟩
+
 end Gossamer.C35
